@@ -15,7 +15,8 @@
 //!   mode=close-stdout-early   print the reply, close stdout, keep running 200 ms
 //!   fault=<kind>@<k>      misbehave at invocation number k (1-based; `*` = always):
 //!                         exit-silent | status-only | truncated-model | truncated-model-midnumber |
-//!                         garbage-line | unknown-status | wrong-var | double-status | crash | exit-code
+//!                         garbage-line | garbage-after-reply | unknown-status | wrong-var | double-status |
+//!                         double-status-unsat-first | crash | exit-code
 //!   lenient               accept a malformed instance (ignore header mismatches) instead of failing
 
 use std::io::{Read, Write};
@@ -437,6 +438,23 @@ fn main() {
                         }
                         _ => reply.extend_from_slice(status_line(false).as_bytes()),
                     }
+                }
+                "garbage-after-reply" => {
+                    // an honest reply followed by a line that is neither a comment, a status nor values
+                    match verdict {
+                        Some(true) => {
+                            reply.extend_from_slice(status_line(true).as_bytes());
+                            reply.extend_from_slice(v_lines(&model, true).as_bytes());
+                        }
+                        _ => reply.extend_from_slice(status_line(false).as_bytes()),
+                    }
+                    reply.extend_from_slice(format!("*** internal error: out of memory ***{}", eol).as_bytes());
+                }
+                "double-status-unsat-first" => {
+                    reply.extend_from_slice(status_line(false).as_bytes());
+                    reply.extend_from_slice(status_line(true).as_bytes());
+                    let lits: Vec<i32> = if model.is_empty() { (1..=n_vars.max(1) as i32).collect() } else { model.clone() };
+                    reply.extend_from_slice(v_lines(&lits, true).as_bytes());
                 }
                 "unknown-status" => reply.extend_from_slice(format!("s UNKNOWN{}", eol).as_bytes()),
                 "wrong-var" => {
